@@ -372,6 +372,11 @@ def methcall(name, recv, *args):
         return UNDEF
 
 
+def kept_seq(target, n, keep, elem):
+    xs = [elem(i) for i in range(n) if keep(i)]
+    return tuple(xs) if target == 'tuple' else xs
+
+
 def forall_bools4(f):
     import itertools
     return all(f(*c) for c in itertools.product([False, True], repeat=4))
